@@ -21,7 +21,8 @@ Definition nf_of (tbl : list (str * nat)) (s : str) := match lookup_opt tbl s wi
 Definition covers {B} (tbl : list (str * B)) (evs : list ev) := forallb (fun s => match lookup_opt tbl s with Some _ => true | None => false end) (texts evs).
 Inductive op16 :=
 | RCount (nf : list (str * nat)) | RPlain (tbl : list (str * (str * nat))) | RFmt (tbl : list (str * (str * nat)))
-| SFind (which : nat) (tbl : list (str * option (nat * nat))) | SAll (tbl : list (str * list (nat * nat))) | STextAt (st : Z) (e : option Z).
+| SFind (which : nat) (tbl : list (str * option (nat * nat))) | SAll (tbl : list (str * list (nat * nat))) | STextAt (st : Z) (e : option Z)
+| SLaw (tbl : list (str * option (nat * nat))) | HL (a : nat) | RPlainS (tbl : list (str * (str * nat))).
 Inductive outv := VNat (n : nat) | VOpt (o : option (nat * nat)) | VList (l : list (nat * nat)) | VStr (s : str).
 Definition pair_eqb (x y : nat * nat) := Nat.eqb (fst x) (fst y) && Nat.eqb (snd x) (snd y).
 Fixpoint pairs_eqb (x y : list (nat * nat)) := match x, y with [], [] => true | a :: r, b :: q => pair_eqb a b && pairs_eqb r q | _, _ => false end.
@@ -41,6 +42,14 @@ Definition conv (which : nat) (r : option (nat * nat)) : outv :=
 (* 0 agree | 1 the text is not the regular expression's result | 2 reported count / search result differs from the model
    3 markup moved | 4 a container whose own text was replaced is not in white-space normal form
    7 oracle table incomplete (harness) | 8 outside the model's domain | 9 exact shape differs: fidelity only *)
+(* the events without the elements carrying attribute id [a] (their content stays): odfdo-highlight may only add such spans *)
+Fixpoint drop_attr (a : nat) (stack : list bool) (evs : list ev) : list ev :=
+  match evs with
+  | [] => []
+  | Open k a' :: r => if Nat.eqb a' a then drop_attr a (true :: stack) r else Open k a' :: drop_attr a (false :: stack) r
+  | Close :: r => match stack with true :: s => drop_attr a s r | _ :: s => Close :: drop_attr a s r | [] => Close :: drop_attr a [] r end
+  | Txt s :: r => Txt s :: drop_attr a stack r
+  end.
 Definition chk (c : node * op16 * outv * node) : nat :=
   let '(pre, o, out, post) := c in
   let pc := content pre in let qc := content post in
@@ -57,6 +66,12 @@ Definition chk (c : node * op16 * outv * node) : nat :=
       else if negb (strs_eqb (texts qc) (map (fun s => fst (f s)) (texts pc))) then 1
       else if negb (out_eqb out (VNat (replace_count f pc))) then 2
       else if evs_eqb (replace_ev f pc) qc then 0 else 9
+  | RPlainS tbl =>       (* odfdo-replace on a saved document: empty text nodes do not survive serialisation *)
+      let f := subn_of tbl in
+      let ne := filter (fun s : str => match s with [] => false | _ => true end) in
+      if negb (covers tbl pc) then 7
+      else if negb (evs_eqb (skeleton qc) (skeleton pc)) then 3
+      else if strs_eqb (ne (texts qc)) (ne (map (fun s => fst (f s)) (texts pc))) then 0 else 1
   | RFmt tbl =>
       let f := subn_of tbl in
       let '(m, cnt) := repl f true pre in
@@ -78,6 +93,15 @@ Definition chk (c : node * op16 * outv * node) : nat :=
       | None => 7
       end
   | STextAt st e => if out_eqb out (VStr (text_at_ pre st e)) then 0 else 2
+  | SLaw tbl =>          (* text_at applied to the pair returned by search_first is the matched text *)
+      match lookup_opt tbl (own_text pre) with
+      | Some (Some (s, e)) => if out_eqb out (VStr (firstn (e - s) (skipn s (own_text pre)))) then 0 else 2
+      | Some None => if out_eqb out (VOpt None) then 0 else 2
+      | None => 7
+      end
+  | HL a =>              (* odfdo-highlight: nothing but spans of the highlight style is added, no character changes *)
+      if negb (str_eqb (readable_ev qc) (readable_ev pc)) then 1
+      else if evs_eqb (nview (drop_attr a [] qc)) (nview (drop_attr a [] pc)) then 0 else 3
   end.'''
 
 LAYER = {1: "text: after replace the text nodes are not re.subn of the former text nodes (or counting changed the tree)",
@@ -85,7 +109,7 @@ LAYER = {1: "text: after replace the text nodes are not re.subn of the former te
          3: "markup: replace moved or lost markup",
          4: "normal form: a container whose own text was replaced with formatted=True is not in white-space normal form",
          7: "oracle table incomplete"}
-NEWS = ['X', '', 'A\tB  C', ' ', '  ', 'x\ny', ' x', 'y ', 'a  a', '\t']
+NEWS = ['X', '', 'A\tB  C', ' ', '  ', 'x\ny', ' x', 'y ', 'a  a', '\t', '\\g<0>\\g<0>', 'a\\g<0>']
 
 
 def coq_tbl(ctx, items, val):
@@ -139,6 +163,13 @@ def run_case(odfdo, ctx, case):
                 out = e.search_all(rx)
                 vo = 'VList [%s]' % ';'.join('(%d,%d)' % t for t in out)
                 cop = 'SAll %s' % coq_tbl(ctx, [(s, '[' + ';'.join('(%d,%d)' % m.span() for m in pat.finditer(s)) + ']') for s in strs], str)
+            elif k == 'law':
+                strs = [tl.own_text(pre)]
+                pos = e.search_first(rx)
+                out = None if pos is None else e.text_at(pos[0], pos[1])
+                vo = 'VOpt None' if out is None else 'VStr %s' % ctx.cs(out)
+                res = lambda s: (lambda m: 'None' if m is None else '(Some (%d, %d))' % m.span())(pat.search(s))
+                cop = 'SLaw %s' % coq_tbl(ctx, [(s, res(s)) for s in strs], str)
             elif k == 'text_at':
                 out = e.text_at(op['start'], op['end']) if op['end'] is not None else e.text_at(op['start'])
                 vo = 'VStr %s' % ctx.cs(out)
@@ -156,6 +187,73 @@ def run_case(odfdo, ctx, case):
     return term, dict(case=case, pre=pre, post=post, out=out, err=err, k=k)
 
 
+OFFICE = '{%s}' % tl.NS['office']
+
+
+def body_of(path):
+    """office:text of a saved document, read with zipfile + lxml only"""
+    import zipfile
+    with zipfile.ZipFile(path) as z:
+        x = tl.etree.fromstring(z.read('content.xml'))
+    return x.find(OFFICE + 'body')[0]
+
+
+def run_script_case(odfdo, ctx, case, workdir, idx):
+    """case: dict(blocks=[xml...], op=dict(k='script_replace'|'script_highlight', rx, new?, fmt?)): the odfdo-replace /
+    odfdo-highlight entry points on a generated DOCUMENT saved under .work; source and result are read back independently"""
+    from argparse import Namespace
+    from odfdo.scripts.replace import search_replace
+    from odfdo.scripts import highlight as hl
+    doc = odfdo.Document('text'); body = doc.body; body.clear()
+    for xml in case['blocks']:
+        body.append(odfdo.Element.from_tag(xml))
+    src, dst = str(workdir / ('in%d.odt' % idx)), str(workdir / ('out%d.odt' % idx))
+    doc.save(src)
+    op = case['op']; rx = op['rx']; pat = re.compile(rx)
+    pre = tl.abs_node(body_of(src), ctx)
+    err = None
+    try:
+        with tl.limit(20):
+            if op['k'] == 'script_replace':
+                search_replace(rx, op['new'], src, dst, op.get('fmt', False))
+            else:
+                hl.highlight(Namespace(input_file=src, output_file=dst, pattern=rx, italic=False, bold=True, color=None, background=None))
+        post = tl.abs_node(body_of(dst), ctx)
+    except tl.Timeout:
+        raise
+    except Exception as ex:
+        err = repr(ex); post = pre
+    if op['k'] == 'script_replace':
+        tx = list(dict.fromkeys(tl.texts(pre)))
+        want = [(s, pat.subn(op['new'], s)) for s in tx]
+        total = sum(pat.subn(op['new'], t)[1] for t in tl.texts(pre))
+        cop = '%s %s' % ('RFmt' if op.get('fmt') else 'RPlainS', coq_tbl(ctx, want, lambda v: '(%s, %d)' % (ctx.cs(v[0]), v[1])))
+        vo = 'VNat %d' % total       # the script reports no count: the per-node sum is passed through
+    else:
+        cop = 'HL %d' % ctx.attr(T + 'span', {T + 'style-name': 'odfdo_20_highlight_20_bold'})
+        vo = 'VNat 0'
+    if err:
+        vo = 'VStr [Ch 999]'
+    term = '(%s, %s, %s, %s)' % (tl.coq_node(pre, ctx), cop, vo, tl.coq_node(post, ctx))
+    return term, dict(case=case, pre=pre, post=post, out=None, err=err, k=op['k'])
+
+
+def gen_script_cases(rng, n):
+    cases = []
+    for i in range(n):
+        blocks = tl.gen_body(rng, edge=(i % 5 == 4))
+        rx = rng.choice(tl.REGEXES)
+        r = rng.random()
+        if r < .55:
+            op = dict(k='script_replace', rx=rx, new=rng.choice(['\\g<0>\\g<0>', 'a\\g<0>', '\\g<0>b', 'X', '']), fmt=False)
+        elif r < .75:
+            op = dict(k='script_replace', rx=rx, new=rng.choice(['\\g<0> \\g<0>', 'A\tB  C', 'x\ny']), fmt=True)
+        else:
+            op = dict(k='script_highlight', rx=rx)
+        cases.append(dict(blocks=blocks, op=op))
+    return cases
+
+
 def gen_cases(rng, n, edge_every=4):
     cases = []
     for i in range(n):
@@ -170,7 +268,7 @@ def gen_cases(rng, n, edge_every=4):
         ops = [dict(k='count', rx=rxs[0]), dict(k='plain', rx=rxs[0], new=rng.choice(NEWS)),
                dict(k='fmt', rx=rxs[0], new=rng.choice(NEWS)), dict(k='fmt', rx=rxs[1], new=rng.choice(NEWS[2:])),
                dict(k='plain', rx=rxs[1], new=rng.choice(NEWS)),
-               dict(k=rng.choice(['search', 'search_first', 'match']), rx=rxs[2]), dict(k='search_all', rx=rxs[1]),
+               dict(k=rng.choice(['search', 'search_first', 'match']), rx=rxs[2]), dict(k='search_all', rx=rxs[1]), dict(k='law', rx=rxs[2]),
                dict(k='text_at', start=rng.randint(-1, 8), end=rng.choice([None, rng.randint(-1, 12)]))]
         for op in ops:
             tgt = 0 if op['k'] in ('count', 'plain', 'fmt') and rng.random() < .6 else rng.randint(0, 4)
@@ -182,7 +280,13 @@ def py_oracle(meta):
     """direct Python statement of the property on one executed call (fallback when proofs / Coq evaluation broke)"""
     op, pre, post, out = meta['case']['op'], meta['pre'], meta['post'], meta['out']
     k = op['k']
-    if k not in ('count', 'plain', 'fmt'):      # search on trees with links / notes / annotations is outside the compared domain
+    if k == 'script_replace':
+        if meta['err']: return "raised " + meta['err']
+        pat = re.compile(op['rx'])
+        if not op.get('fmt') and [t for t in tl.texts(post) if t] != [w for w in (pat.subn(op['new'], t)[0] for t in tl.texts(pre)) if w]:
+            return "odfdo-replace: a text run of the saved document is not re.sub of the source run"
+        return None
+    if k not in ('count', 'plain', 'fmt'):
         return None
     if meta['err']:
         return "raised " + meta['err']
@@ -214,13 +318,19 @@ def run(tier, seed, replay=None):
         cases = [json.load(open(replay))["case"]]; ncorpus = 0
     else:
         cases += gen_cases(rng, 1500 if tier == "quick" else 18000)
+    if not replay:
+        cases += gen_script_cases(rng, 140 if tier == "quick" else 1800)
+    import shutil
+    workdir = common.WORK / ("c16docs-%d" % os.getpid())
+    workdir.mkdir(parents=True, exist_ok=True)
     terms, metas, driver_errors = [], [], []
-    for c in cases:
+    for i, c in enumerate(cases):
         try:
-            t, m = run_case(odfdo, ctx, c)
+            t, m = run_script_case(odfdo, ctx, c, workdir, i) if 'blocks' in c else run_case(odfdo, ctx, c)
             terms.append(t); metas.append(m)
         except Exception as e:
             driver_errors.append(repr(e))
+    shutil.rmtree(workdir, ignore_errors=True)
     bad, errors = common.run_shards(HEADER, terms, "chk", "c16", shard=250)
     known = {e["key"] for e in common.known_findings(PROP)}
     violations, seen_keys, counts, hist = [], {}, {}, {}
@@ -260,10 +370,11 @@ def run(tier, seed, replay=None):
     coverage = dict(
         trusted_base=["lxml (text/tail semantics, XPath descendant::text())",
                       "Python re: subn / findall / search / finditer are the specification of 'what the regular expression says'; the harness applies them per text node of the abstracted pre-state and hands the tables to the model",
+                      "scripts/replace.py search_replace and scripts/highlight.py highlight are driven as black boxes on saved documents (zipfile + lxml read-back); their specification is the model's replace applied once to the body (C16_script_body_once) and, for highlight, 'only spans of the highlight style are added'",
                       "modelled in Tree.v / TreeNF.v: element.py replace (count, plain, formatted), search, search_first, search_all, match, text_at over Element._own_text (fixes/F28, F103); Paragraph.append_plain_text through WS.v",
                       "ODF 1.2 section 6.1.2 consumer reading fixed in DESIGN.md 5/C05 (normal form predicate NFb)"],
         evaluations=len(terms), distinct_nontrivial=len(nontrivial),
-        rule="for every generated element tree (text, nested spans/links, text:s/tab/line-break, marks, notes, annotations; 35% after a set_span/set_bookmark so that empty text nodes exist; every 4th from the edge stream with raw double spaces): count, two plain and two formatted replacements (10 replacement strings with and without white space), one of search/search_first/match, search_all, text_at, on the paragraph or an inner span/link; 23 regexes without empty matches. non-trivial = the call changed the tree or returned a non-empty result; distinct = distinct (operation, pre-state)",
+        rule="for every generated element tree (text, nested spans/links, text:s/tab/line-break, marks, notes, annotations; 35% after a set_span/set_bookmark so that empty text nodes exist; every 4th from the edge stream with raw double spaces): count, two plain and two formatted replacements (10 replacement strings with and without white space), one of search/search_first/match, search_all, text_at, on the paragraph or an inner span/link; 23 regexes without empty matches. one text_at(search_first) law call; the text alphabet includes characters whose NFC / NFD / NFKC / casefold / UTF-16 forms differ in length (combining sequences, U+212B, U+2126, U+FB01, U+0130, a non-BMP character, Hangul jamo). Then generated DOCUMENTS (paragraphs and headings, paragraphs nested in footnotes, comments, text boxes, list items, table cells) saved under .work: odfdo-replace (scripts.replace.search_replace, plain and formatted, with replacements that re-create a match) and odfdo-highlight (scripts.highlight.highlight); source and result bodies are read back with zipfile + lxml and compared per text run. non-trivial = the call changed the tree or returned a non-empty result; distinct = distinct (operation, pre-state)",
         samples=[m['case'] for m in metas[ncorpus:ncorpus + 3]], corpus_cases=ncorpus, operation_histogram=hist, codes=counts,
         fidelity_divergences=counts.get(9, 0), out_of_domain=counts.get(8, 0), known_findings_reobserved=seen_keys,
         driver_errors=len(driver_errors), exhaustive=False)
